@@ -17,7 +17,7 @@ def url_of(st, imp, sub):
     di, dt = imp in sub, t in sub
     base = "" if di == dt else ("d/" if not di else "../")
     detour = "d/../" if not di else "../d/"
-    return {"plain": base + t, "dot": "./" + base + t, "dd": detour + base + t}[st["sp"]]
+    return {"plain": base + t, "dot": "./" + base + t, "dd": detour + base + t, "ext": base + t + ".scss"}[st["sp"]]
 
 
 def path_of(f, sub):
@@ -175,7 +175,7 @@ class LoaderEngine(VectorEngine):
             g = {f: [] for f in fl}
             for _ in range(rng.randint(2, 6)):
                 f = rng.choice(fl)
-                g[f].append({"kind": rng.choice(self.kinds), "target": rng.choice(fl), "sp": rng.choice(["plain", "dot", "dd"])})
+                g[f].append({"kind": rng.choice(self.kinds), "target": rng.choice(fl), "sp": rng.choice(["plain", "dot", "dd", "ext"])})
             for f in fl:   # @use/@forward first
                 g[f].sort(key=lambda s: 0 if s["kind"] in ("use", "forward") else 1)
             inputs.append({"files": g})
@@ -234,14 +234,14 @@ class C02(LoaderEngine):
 class C03(LoaderEngine):
     prop = "C03"
     kinds = ["use", "forward"]
-    rule = ("@use/@forward graphs built by MC_Loader.tla (<= MaxStmts statements in total over 3 files x 3 URL spellings; thorough: 4 statements); every module "
+    rule = ("@use/@forward graphs built by MC_Loader.tla (quick: <= 2 statements x 4 URL spellings (t, ./t, detour, t.scss) and <= 3 statements x 2 spellings over 3 files of which one lives in a subdirectory; thorough: 3 statements x 4 spellings, 4 statements x 3); every module "
             "emits a marker rule; non-trivial = at least one load statement; distinct = distinct graph. Compared: outcome class and, for successful runs, "
             "how often each file's marker appears in the CSS (= how often the Loader machine executed it). InitStart/CacheHit hook events of every run are "
             "validated against the machine by Trace_Loader.tla, whose invariant InitOnce is evaluated after every event. Flow B: random use/forward graphs over 4 files.")
     assumptions = C02.assumptions + ["module execution is observed through one marker rule per file"]
     mc_runs = {
-        "quick": [("MC_Loader", "MC_Loader_C03_q.cfg", {})],
-        "thorough": [("MC_Loader", "MC_Loader_C03_q.cfg", {}), ("MC_Loader", "MC_Loader_C03_t.cfg", {"timeout": 3000})],
+        "quick": [("MC_Loader", "MC_Loader_C03_q2.cfg", {}), ("MC_Loader", "MC_Loader_C03_q3.cfg", {})],
+        "thorough": [("MC_Loader", "MC_Loader_C03_t3.cfg", {"timeout": 3000}), ("MC_Loader", "MC_Loader_C03_t.cfg", {"timeout": 3000})],
     }
 
     def project(self, inp, res):
